@@ -28,7 +28,13 @@ PNAMES = ["a", "b", "c", "d", "k", "m"]
 
 # ------------------------------------------------------------------ generated classes
 
-def make_class(sig, base, service_wrapped, cid, recording_star=False):
+class FalsyPool(RecPool):
+    """a container-like pool without children: a perfectly good Pool that is falsy"""
+    def __len__(self):
+        return 0
+
+
+def make_class(sig, base, service_wrapped, cid, recording_star=False, falsy=False):
     from cobald.interfaces import Controller, PoolDecorator
     params = ["self"]
     for n, d in sig["pos"]:
@@ -45,11 +51,13 @@ def make_class(sig, base, service_wrapped, cid, recording_star=False):
     body = "    def __init__(%s):\n" % ", ".join(params)
     body += "        LOG.append((%d, self))\n" % cid
     if base != "pool":
-        body += "        self.target = target\n"
+        body += "        self.target = %s\n" % (sig["pos"][0][0] if sig["pos"] else "rest[0]")
     if recording_star:
         body += "        self._args, self._kwargs, self._cid = rest, extra, %d\n" % cid
     body += "        self._bound = {%s}\n" % ", ".join("%r: %s" % (n, n) for n in names)
     body += "    def run(self):\n        pass\n"
+    if falsy:
+        body += "    def __len__(self):\n        return 0\n"
     bases = {"controller": "Controller", "decorator": "PoolDecorator", "pool": "RecPool"}[base]
     src = "class G%d(%s):\n%s" % (cid, bases, body)
     ns = {"Controller": Controller, "PoolDecorator": PoolDecorator, "RecPool": RecPool, "LOG": LOG}
@@ -69,15 +77,24 @@ def gen_sig(rng, leaf):
     ndef = rng.randint(0, npos)
     for i in range(npos - ndef, npos):
         pos[i][1] = True
+    varpos = rng.random() < 0.25
     if not leaf:
-        pos = [["target", False]] + pos
+        # the target is the first positional parameter whatever it is called - or it arrives
+        # through *args of a pass-through constructor
+        r = rng.random()
+        if r < 0.7:
+            pos = [["target", False]] + pos
+        elif r < 0.9:
+            pos = [[rng.choice(["pool", "tgt", "wrapped"]), False]] + pos
+        else:
+            pos, varpos = [], True
     nkw = rng.randint(0, 2)
     kwonly = [[names.pop(), rng.random() < 0.5] for _ in range(nkw)]
-    return {"pos": pos, "varPos": rng.random() < 0.25, "kwOnly": kwonly, "varKw": rng.random() < 0.25}
+    return {"pos": pos, "varPos": varpos, "kwOnly": kwonly, "varKw": rng.random() < 0.25}
 
 
 def gen_calls(rng, sig, leaf, pnames=None):
-    known = [n for n, _ in sig["pos"] if n != "target"] + [n for n, _ in sig["kwOnly"]]
+    known = [n for n, _ in (sig["pos"] if leaf else sig["pos"][1:])] + [n for n, _ in sig["kwOnly"]]
     calls = []
     nid = [0]
     def arg(allow_pool=True):
@@ -92,7 +109,7 @@ def gen_calls(rng, sig, leaf, pnames=None):
             if r < 0.7 and known:
                 k = rng.choice(known)
             elif r < 0.78:
-                k = "target"
+                k = "target" if leaf or not sig["pos"] else sig["pos"][0][0]
             elif r < 0.9:
                 k = rng.choice(["zz", "rest", "extra", "q"])
             else:
@@ -252,11 +269,11 @@ def gen_shipped(rng):
 CHAIN_CLASSES = {}
 
 
-def chain_class(cid, base, svc):
-    key = (cid, base, svc)
+def chain_class(cid, base, svc, falsy=False):
+    key = (cid, base, svc, falsy)
     if key not in CHAIN_CLASSES:
         sig = {"pos": [] if base == "pool" else [["target", False]], "varPos": True, "kwOnly": [], "varKw": True}
-        CHAIN_CLASSES[key] = make_class(sig, base, svc, cid, recording_star=True)
+        CHAIN_CLASSES[key] = make_class(sig, base, svc, cid, recording_star=True, falsy=falsy)
     return CHAIN_CLASSES[key]
 
 
@@ -293,10 +310,10 @@ def gen_chain(rng, n=None):
             calls.append({"args": [arg() for _ in range(rng.randint(0, 2))], "kwargs": kws})
         # only the head of a chain may be a Controller: every later element is the target of its predecessor, i.e. a Pool
         return {"ctor": cid, "leaf": leaf, "calls": calls, "base": "pool" if leaf else ("decorator" if cid > 0 else rng.choice(["controller", "decorator"])),
-                "service": rng.random() < 0.3}
+                "service": rng.random() < 0.3, "falsy": rng.random() < 0.12}
     items = [item(False, i) for i in range(n)]
     tail = rng.choice(["pool", "tmpl", "tmpl"])
-    items.append({"pool": 999} if tail == "pool" else item(True, n))
+    items.append({"pool": 999, "falsy": rng.random() < 0.2} if tail == "pool" else item(True, n))
     return {"mode": "chain", "items": items, "tree": gen_tree(rng, 0, n + 1)}
 
 
@@ -304,11 +321,11 @@ def build_items(items):
     objs = []
     for it in items:
         if "pool" in it:
-            p = RecPool(name="tailpool")
+            p = (FalsyPool if it.get("falsy") else RecPool)(name="tailpool")
             p._pid = it["pool"]
             objs.append(p)
         else:
-            cls = chain_class(it["ctor"], it["base"], it["service"])
+            cls = chain_class(it["ctor"], it["base"], it["service"], bool(it.get("falsy")))
             t = None
             for c in it["calls"]:
                 args = [a["id"] for a in c["args"]]
@@ -329,42 +346,52 @@ def call_of(o):
     return {"ctor": o._cid, "args": list(o._args), "kwargs": [[k, v] for k, v in o._kwargs.items()]}
 
 
-def graft(tree, pre_tree, k):
-    """leaf 0 of a suffix tree stands for the shared prefix value, leaf i > 0 for suffix item i-1"""
+def graft(tree, pre_tree, k, p):
+    """leaf p of a use's tree stands for the shared pending value (k templates, grouped as pre_tree),
+    the other leaves for the use's own items, in order"""
     if isinstance(tree, int):
-        return pre_tree if tree == 0 else tree + k - 1
-    return [graft(tree[0], pre_tree, k), graft(tree[1], pre_tree, k)]
+        if tree == p:
+            return shift(pre_tree, p)
+        return tree if tree < p else tree + k - 1
+    return [graft(tree[0], pre_tree, k, p), graft(tree[1], pre_tree, k, p)]
+
+
+def shift(tree, d):
+    return tree + d if isinstance(tree, int) else [shift(tree[0], d), shift(tree[1], d)]
 
 
 def derived(case):
-    """the chains a reuse program stands for: prefix ++ suffix_j, grouped as (prefix) >> (suffix_j)"""
+    """the chains a reuse program stands for: own items before ++ shared ++ own items after"""
     pre = case["prefix"]
     k = len(pre["items"])
     out = []
     for sfx in case["suffixes"]:
-        out.append({"mode": "chain", "items": pre["items"] + sfx["items"], "tree": graft(sfx["tree"], pre["tree"], k)})
+        p = sfx.get("pos", 0)
+        items = sfx["items"][:p] + pre["items"] + sfx["items"][p:]
+        out.append({"mode": "chain", "items": items, "tree": graft(sfx["tree"], pre["tree"], k, p)})
     return out
 
 
 def gen_reuse(rng):
     k = rng.randint(2, 4)
     base = gen_chain(rng, k)
-    pre_items = base["items"][:k]
+    pre_items = [dict(it, base="decorator") for it in base["items"][:k]]
     prefix = {"items": pre_items, "tree": gen_tree(rng, 0, k)}
     suffixes = []
     cid = k
     for j in range(rng.randint(2, 4)):
-        extra = gen_chain(rng, rng.randint(0, 2)) if j < 3 else gen_chain(rng, 0)
+        extra = gen_chain(rng, rng.randint(1, 4))
         items = []
         for it in extra["items"]:
             if "pool" in it:
                 items.append({"pool": 900 + j})
             else:
-                # only the head of the whole chain may be a Controller (every later element is a target, i.e. a Pool)
+                # (only the head of a whole chain may be a Controller; irrelevant here: decorators throughout)
                 items.append(dict(it, ctor=cid, base="pool" if it["leaf"] else "decorator"))
                 cid += 1
-        # the prefix value is the left-most leaf of the expression (so it is a `>>` operand of its own)
-        suffixes.append({"items": items, "tree": gen_tree(rng, 0, len(items) + 1)})
+        # the shared value is one `>>` operand of the use: left-most, or after some of the use's own heads
+        pos = rng.choice([0, 0, rng.randint(0, len(items) - 1)])
+        suffixes.append({"items": items, "pos": pos, "tree": gen_tree(rng, 0, len(items) + 1)})
     return {"mode": "reuse", "prefix": prefix, "suffixes": suffixes}
 
 
@@ -384,8 +411,10 @@ def impl_reuse(case):
     results = []
     for sfx in case["suffixes"]:
         del LOG[:]
+        own = build_items(sfx["items"])
+        p = sfx.get("pos", 0)
         try:
-            res = ev([pre] + build_items(sfx["items"]), sfx["tree"])
+            res = ev(own[:p] + [pre] + own[p:], sfx["tree"])
         except TypeError:
             results.append({"error": "TypeError"})
             continue
@@ -399,20 +428,7 @@ def impl_reuse(case):
 
 def impl_chain(case):
     del LOG[:]
-    objs = []
-    for it in case["items"]:
-        if "pool" in it:
-            p = RecPool(name="tailpool")
-            p._pid = it["pool"]
-            objs.append(p)
-        else:
-            cls = chain_class(it["ctor"], it["base"], it["service"])
-            t = None
-            for c in it["calls"]:
-                args = [a["id"] for a in c["args"]]
-                kw = {k: a["id"] for k, a in c["kwargs"]}
-                t = cls.s(*args, **kw) if t is None else t(*args, **kw)
-            objs.append(t)
+    objs = build_items(case["items"])
 
     def ev(tree):
         if isinstance(tree, int):
